@@ -47,7 +47,7 @@ CHECKS.update({
  "C05": (E1, E1TECH + "; literal status table and declared error responses from the spec", "Every declared error (default type: 8 flag combinations, wrapped/joined; custom types), undeclared service errors, plain Go errors and hand-encoded decode failures are provoked; status, goa-error header, body, WriteHeader count and the client's error are judged.", E1NOTE + " Nil error formatter (as goa example passes)."),
  "C06": (E1, E1TECH + "; recording Auther scripted by accept/reject vectors; reference evaluation 'exists requirement, all schemes accept'", "Every accept/reject vector over the schemes of the effective requirements, with credentials from class alphabets, explicit/implicit mappings, NoSecurity and inheritance; callbacks' arguments, scopes and the method's execution are judged.", E1NOTE),
  "C08": (E1, E1TECH + "; reference projection from the spec's views; response relabelling at the tap", "Per defined view the stub returns (result, view); wire members, goa-view header and the client's value are compared with the reference projection; responses relabelled with undefined views must be refused.", E1NOTE),
- "C07": (E1, "runtime monitoring of generator output against the running server: generated designs (openapi profile: multiple routes, file servers, parameters in every location, security, errors) run through the real generators; the four emitted documents are parsed (own OpenAPI-3 loader, kin-openapi for validity, swagger-2 structural checks), JSON and YAML renderings compared value by value, and the documented operations, parameters, bodies and status codes compared with the (verb, pattern) pairs the generated Mount functions register on a recording Muxer and with the spec", "Per accepted design: documents load and validate; JSON == YAML as values; every mounted (verb, path) is documented and every documented operation is served; parameters (name, location, required) match the design.", E1NOTE + " OpenAPI validity is judged by the rules the lab implements plus kin-openapi's loader; vendor extensions ignored."),
+ "C07": (E1, "runtime monitoring of generator output against the running server: generated designs (openapi profile: multiple routes, file servers, parameters in every location, security, errors) run through the real generators; the four emitted documents are parsed (own OpenAPI-3 loader, kin-openapi for validity, swagger-2 structural checks), JSON and YAML renderings compared value by value, and the documented operations, parameters, bodies and status codes compared with the (verb, pattern) pairs the generated Mount functions register on a recording Muxer and with the spec", "Per accepted design: documents load and validate; JSON == YAML as values; every mounted (verb, path) is documented and every documented operation is served; parameters (name, location, required; deepObject style of OpenAPI 3 map parameters) match the design; per-operation security requirements (alternatives, schemes per requirement, declared schemes) match the design.", E1NOTE + " OpenAPI validity is judged by the rules the lab implements plus kin-openapi's loader; vendor extensions ignored."),
  "C14": (E1, E1TECH + "; the lab's own evaluator of the OpenAPI-3 subset goa emits (oaeval/oajudge) judges every request/response of the C04 boundary workload against the documented schemas; the generated server's verdict is compared (schema accepts <=> server runs the method; response conforms to the documented response); kin-openapi's openapi3filter runs as a counted cross-check", "Boundary probes on both sides of every validation rule, removed required attributes, wrong kinds, hand-encoded requests; for each, schema verdict vs server verdict; served responses (results, declared errors) vs documented responses.", E1NOTE + " Findings are keyed by trigger class of the triaged root cause; server-side validation defects owned by C04 appear here under the same trigger names."),
  "C20": (E1, "Go race detector + runtime monitoring: the generated server built with -race is driven by 2/16/64 client goroutines (PRNG-chosen yields inside the stub); every concurrent exchange must be observationally equal to the sequential baseline of the same case; helper hammer (muxer, encoders, error encoder, pattern validator, samplers, request-ID and trace middlewares) with per-operation expected results; race log parsed", "Mixed valid/invalid/error cases against one mounted server per design, 3 rounds per concurrency level, overlap measured (max in flight, overlapping class pairs); race reports de-duplicated by function pair.", "A clean race-detector run means no race on the schedules exercised. " + E1NOTE),
 })
